@@ -159,7 +159,7 @@ def main(tier, seed, budget):
     src = source_lines()
     stats = dict(worlds=0, profile_worlds=0, faults_planned=0, faults_fired=0, armed_not_fired=0, by_gran={}, by_site={},
                  by_P={}, multi_fault_worlds=0, blocks_opened=0, covered=set(), worlds_nontrivial=set(), probes={k: 0 for k in PROBES}, timeouts_handled_msgs=0,
-                 events=0, ticks_total=0, blocks_total=0, classes_total=0, sound_functions=0, ref_failed=[], sweep=None, repeat_sweep=None, line_sweep=None)
+                 events=0, ticks_total=0, blocks_total=0, classes_total=0, sound_functions=0, ref_failed=[], sweep=[], repeat_sweep=[], line_sweep=[])
     samples = []
     selftest = {}
     with Pool(16, hashseed=0) as pool:
@@ -281,67 +281,72 @@ def main(tier, seed, budget):
             selftest['same_seed_twice_with_faults'] = dict(pairs=len(got), mismatches=len(bad))
             if bad:
                 rep.harness_error('determinism self-test (faulted worlds) failed: %s' % bad)
-        # ---- exhaustive single-statement-fault sweep of the smallest configuration ----
-        sweep_key = ('core_maths', 3, 1)
-        if sweep_key in profiles:
-            pr = profiles[sweep_key][0]
-            pts = [(e[0], t) for e in pr for t in range(1, e[1] + 1)]
-            if quick:
-                rng = base.rng_for(seed, 'c15-sweep')
-                pts = sorted(rng.sample(pts, min(len(pts), 320)))
-            sj = []
-            for b, t in pts:
-                a = base_args(cfg_by[sweep_key[:2]], 1, base.run_seed(seed, 800000 + b * 1000 + t))
-                a['plan'] = {'0': {str(b): ['stmt', t]}}
-                sj.append(dict(fn=JOB, args=a, timeout=600))
-            n0 = stats['worlds']
-            for job, out in pool.imap(sj, timeout=600):
-                handle(job, out, pending_min)
-            stats['sweep'] = dict(config=list(sweep_key), points_total=sum(p[1] for p in pr), points_run=stats['worlds'] - n0,
-                                  complete=not quick)
-        # ---- "same path interrupted at the same place in every round": complete for the smallest configuration ----
-        if sweep_key in profiles:
-            pr = profiles[sweep_key][0]
-            classes = {}
-            for ent in pr:
-                classes.setdefault(ent[3], []).append(ent)
-            rj = []
-            for cid in sorted(classes):
-                ents = sorted(classes[cid])
-                if len(ents) < 2:
-                    continue
-                for t in range(1, min(e[1] for e in ents) + 1):
-                    a = base_args(cfg_by[sweep_key[:2]], 1, base.run_seed(seed, 700000 + len(rj)))
-                    a['plan'] = {'0': {str(e[0]): ['stmt', t] for e in ents}}
-                    rj.append(dict(fn=JOB, args=a, timeout=600))
-            if quick and len(rj) > 400:
-                rng = base.rng_for(seed, 'c15-repeat-sweep')
-                rj = rng.sample(rj, 400)
-            n0 = stats['worlds']
-            for job, out in pool.imap(rj, timeout=600):
-                handle(job, out, pending_min)
-            stats['repeat_sweep'] = dict(config=list(sweep_key), plans_run=stats['worlds'] - n0, complete=not (quick and len(rj) >= 400))
-        # ---- "one statement is slow every time": every source line of the smallest configuration ----
-        if sweep_key in profiles:
-            pr = profiles[sweep_key][0]
-            lines = sorted({L for e in pr for L in e[5]})
-            lj = []
-            for L in lines:
-                for occ in (1, 2):
-                    a = base_args(cfg_by[sweep_key[:2]], 1, base.run_seed(seed, 600000 + L * 10 + occ))
-                    a['plan'] = {'0': {'*': ['line', L, occ]}}
-                    lj.append(dict(fn=JOB, args=a, timeout=600))
-                # the same slow statement on every rank of a 2- and a 3-rank world (stale maps must then be repaired
-                # by check_results across its shuffled, scattered slices)
-                for P in (2, 3):
-                    if (sweep_key[0], sweep_key[1], P) in profiles:
-                        a = base_args(cfg_by[sweep_key[:2]], P, base.run_seed(seed, 600000 + L * 10 + 5 + P))
-                        a['plan'] = {str(r): {'*': ['line', L, 1]} for r in range(P)}
+        def run_sweeps(sweep_key, single_cap):
+            # ---- exhaustive single-statement-fault sweep of the smallest configuration ----
+            if sweep_key in profiles:
+                pr = profiles[sweep_key][0]
+                pts = [(e[0], t) for e in pr for t in range(1, e[1] + 1)]
+                if single_cap and len(pts) > single_cap:
+                    rng = base.rng_for(seed, 'c15-sweep', sweep_key)
+                    pts = sorted(rng.sample(pts, single_cap))
+                sj = []
+                for b, t in pts:
+                    a = base_args(cfg_by[sweep_key[:2]], 1, base.run_seed(seed, 800000 + b * 1000 + t))
+                    a['plan'] = {'0': {str(b): ['stmt', t]}}
+                    sj.append(dict(fn=JOB, args=a, timeout=600))
+                n0 = stats['worlds']
+                for job, out in pool.imap(sj, timeout=600):
+                    handle(job, out, pending_min)
+                stats['sweep'].append(dict(config=list(sweep_key), points_total=sum(p[1] for p in pr), points_run=stats['worlds'] - n0,
+                                           complete=stats['worlds'] - n0 == sum(p[1] for p in pr)))
+            # ---- "same path interrupted at the same place in every round": complete for the smallest configuration ----
+            if sweep_key in profiles:
+                pr = profiles[sweep_key][0]
+                classes = {}
+                for ent in pr:
+                    classes.setdefault(ent[3], []).append(ent)
+                rj = []
+                for cid in sorted(classes):
+                    ents = sorted(classes[cid])
+                    if len(ents) < 2:
+                        continue
+                    for t in range(1, min(e[1] for e in ents) + 1):
+                        a = base_args(cfg_by[sweep_key[:2]], 1, base.run_seed(seed, 700000 + len(rj)))
+                        a['plan'] = {'0': {str(e[0]): ['stmt', t] for e in ents}}
+                        rj.append(dict(fn=JOB, args=a, timeout=600))
+                if quick and len(rj) > 400:
+                    rng = base.rng_for(seed, 'c15-repeat-sweep')
+                    rj = rng.sample(rj, 400)
+                n0 = stats['worlds']
+                for job, out in pool.imap(rj, timeout=600):
+                    handle(job, out, pending_min)
+                stats['repeat_sweep'].append(dict(config=list(sweep_key), plans_run=stats['worlds'] - n0, complete=not (quick and len(rj) >= 400)))
+            # ---- "one statement is slow every time": every source line of the smallest configuration ----
+            if sweep_key in profiles:
+                pr = profiles[sweep_key][0]
+                lines = sorted({L for e in pr for L in e[5]})
+                lj = []
+                for L in lines:
+                    for occ in (1, 2):
+                        a = base_args(cfg_by[sweep_key[:2]], 1, base.run_seed(seed, 600000 + L * 10 + occ))
+                        a['plan'] = {'0': {'*': ['line', L, occ]}}
                         lj.append(dict(fn=JOB, args=a, timeout=600))
-            n0 = stats['worlds']
-            for job, out in pool.imap(lj, timeout=600):
-                handle(job, out, pending_min)
-            stats['line_sweep'] = dict(config=list(sweep_key), source_lines=len(lines), plans_run=stats['worlds'] - n0, complete=True)
+                    # the same slow statement on every rank of a 2- and a 3-rank world (stale maps must then be repaired
+                    # by check_results across its shuffled, scattered slices)
+                    for P in (2, 3):
+                        if (sweep_key[0], sweep_key[1], P) in profiles:
+                            a = base_args(cfg_by[sweep_key[:2]], P, base.run_seed(seed, 600000 + L * 10 + 5 + P))
+                            a['plan'] = {str(r): {'*': ['line', L, 1]} for r in range(P)}
+                            lj.append(dict(fn=JOB, args=a, timeout=600))
+                n0 = stats['worlds']
+                for job, out in pool.imap(lj, timeout=600):
+                    handle(job, out, pending_min)
+                stats['line_sweep'].append(dict(config=list(sweep_key), source_lines=len(lines), plans_run=stats['worlds'] - n0, complete=True))
+        sweeps = [(('core_maths', 3, 1), 320 if quick else 0)]
+        if not quick:
+            sweeps += [(('core_maths', 4, 1), 0), (('osc_maths', 3, 1), 600), (('base_e_maths', 3, 1), 600)]
+        for sk, cap in sweeps:
+            run_sweeps(sk, cap)
         # ---- seeded sampling of fault plans ----
         if keys:
             deadline = time.time() + explore_s
